@@ -13,7 +13,8 @@ from lib import vf
 from gen import allocprogs
 from checks import c01
 
-PRELUDE = "#[global_allocator]\nstatic ALLOC: ::vt::CountingAlloc = ::vt::CountingAlloc;\n"
+PRELUDE = ("#[global_allocator]\nstatic ALLOC: ::vt::CountingAlloc = ::vt::CountingAlloc;\n"
+           "pub trait Marker {}\nimpl<T> Marker for ::entrait::Impl<T> {}\n")
 
 
 def main():
@@ -70,10 +71,10 @@ def main():
     chk.cov["programs_rejected_by_rustc"] = len(dropped)
     chk.cov["distinct_nontrivial"] = sum(1 for c in cases if c["static"] and c["case"] not in dropped)
     chk.cov["rule"] = ("program kinds {fn, mod, entraited trait (Self), static dependency inversion, dyn async_trait (control)} x call-chain depth "
-                       "1..3 x sync/async x innermost work {0, 1 allocation}; per program a direct-call and a trait-call scenario measured by a "
+                       "1..3 x sync/async x innermost work {0, 1 allocation} x {1, 2} bounds on each dependency parameter; per program a direct-call and a trait-call scenario measured by a "
                        "counting global allocator (after a warm-up call); non-trivial = static delegation and compiled")
     chk.cov["exhaustive"] = True
-    chk.cov["samples"] = [{"program": c["prog"], "allocs": {k: observed.get((c["case"], k)) for k in ("direct", "trait")}} for c in cases[::12][:5]]
+    chk.cov["samples"] = [{"program": c["prog"], "allocs": {k: observed.get((c["case"], k)) for k in ("direct", "trait")}} for c in cases[::24][:5]]
     for b in bad:
         c = byid[b["case"]]
         b["detail"] = f"program={c['prog']} allocs={ {k: observed.get((c['case'], k)) for k in ('direct', 'trait')} }"
